@@ -348,6 +348,13 @@ Section Core.
 
 End Core.
 
+(* CheckSequence reads the transaction version as uint32_t (static_cast<uint32_t>(txTo->nVersion) < 2): what that
+   cast makes of a version handed over as a signed 32-bit number.  The identity on 0 .. 2^32-1, the reading the
+   library's own Transaction.version_int produces. *)
+Definition core_u32 (z : Z) : Z := z mod 4294967296.
+Definition env_u32_version (e : env) : env :=
+  mkEnv (e_redeem e) (e_sequence e) (e_locktime e) (option_map core_u32 (e_version e)).
+
 (* static resource limits of EvalScript the library does not have: at most 201 non-push opcodes
    (opcodes above OP_16, executed or not) and pushes of at most 520 bytes *)
 Definition core_limits_ok (cmds : list scmd) : bool :=
